@@ -91,6 +91,21 @@ const (
 	c11BurstMix // burst16 with alternating flags
 	c11DrainMix // drain with alternating flags
 	c11PaceMix  // pace16 with alternating flags
+	// ack/loss batches whose event time is NOT the handling time (part late-acks). quic-go stamps a
+	// batch found by an ACK frame with the RECEIVE time of the datagram that carried it (rcvTime, the
+	// datagram may have waited in the connection's queue) and a batch found by the loss timer with
+	// "now", and its run loop may handle the timer before the already-queued datagram: the event times
+	// the controller sees are not monotone, and a batch stamped in second N can follow one stamped in
+	// second N+1. "@rcv-<lag>" = the batch is handled now and stamped now-lag; a sample belongs to the
+	// second it was stamped with. Lags: 2ms (a queued datagram; steps back over a second boundary only
+	// right after one) and 1s (always stamps the previous second).
+	// Added after the independently seeded change C11-10 (the slot an event maps to was recycled
+	// whenever the event's second differed from the second of the previous event, so a batch stamped
+	// one second back wiped the still-valid samples of that second).
+	c11AckLate2ms50_0
+	c11AckLate2ms40_10
+	c11AckLate1s50_0
+	c11AckLate1s40_10
 	c11NActions
 )
 
@@ -99,11 +114,20 @@ var c11ActionNames = [c11NActions]string{
 	"ack(49,0)", "ack(50,0)", "ack(40,10)", "ack(39,11)", "ack(10,40)", "ack(0,50)", "probe", "mtu+172",
 	"ack(10,10)", "ack(10,30)", "ack(20,0)", "ack(40,0)", "ack(1,0)", "ack(0,1)",
 	"send1-ackonly", "burst16-mixed", "drain-mixed", "pace16-mixed",
+	"ack(50,0)@rcv-2ms", "ack(40,10)@rcv-2ms", "ack(50,0)@rcv-1s", "ack(40,10)@rcv-1s",
 }
 
 var c11Batches = [c11NActions][2]int{
 	c11Ack49_0: {49, 0}, c11Ack50_0: {50, 0}, c11Ack40_10: {40, 10}, c11Ack39_11: {39, 11}, c11Ack10_40: {10, 40}, c11Ack0_50: {0, 50},
 	c11Ack10_10: {10, 10}, c11Ack10_30: {10, 30}, c11Ack20_0: {20, 0}, c11Ack40_0: {40, 0}, c11Ack1_0: {1, 0}, c11Ack0_1: {0, 1},
+	c11AckLate2ms50_0: {50, 0}, c11AckLate2ms40_10: {40, 10}, c11AckLate1s50_0: {50, 0}, c11AckLate1s40_10: {40, 10},
+}
+
+// c11RcvLag: how long before it is handled a batch was stamped (0 = stamped with the handling time).
+// Added after the independently seeded change C11-10 (see c11AckLate2ms50_0).
+var c11RcvLag = [c11NActions]int64{
+	c11AckLate2ms50_0: int64(2 * time.Millisecond), c11AckLate2ms40_10: int64(2 * time.Millisecond),
+	c11AckLate1s50_0: int64(time.Second), c11AckLate1s40_10: int64(time.Second),
 }
 
 const (
@@ -137,6 +161,13 @@ var (
 	// were no longer charged to the pacer's token bucket)
 	c11AlphaAckOnly = []c11Action{c11Send1, c11SendNA, c11BurstMix, c11DrainMix, c11PaceMix, c11Sleep, c11Idle1,
 		c11Ack50_0, c11Ack40_10}
+	// batches stamped with the handling time (loss timer: "now") in every order with batches stamped
+	// with an earlier receive time (ACK frames: rcvTime), around second boundaries (the clock starts
+	// 1ms before one; sleep / idle1s / nextsec cross them): event times that step back over a boundary.
+	// (added after the independently seeded change C11-10: a batch stamped one second back recycled
+	// the slot holding that second's samples)
+	c11AlphaLate = []c11Action{c11Send1, c11Sleep, c11Idle1, c11NextSec, c11Ack50_0, c11Ack40_10,
+		c11AckLate2ms50_0, c11AckLate2ms40_10, c11AckLate1s50_0, c11AckLate1s40_10}
 )
 
 // ---------------------------------------------------------------------------------------------
@@ -198,9 +229,9 @@ type c11Sim struct {
 }
 
 type c11Snap struct {
-	slots    [pktInfoSlotCount]pktInfo
-	ackRate  float64
-	lastPr   int64
+	// the WHOLE sender by value (not a list of the fields known today: a field the sender gains must
+	// travel with the snapshot, or a backtracked search would run on a state no history produces)
+	bs       BrutalSender
 	pacer    common.Pacer
 	now      int64
 	inflight congestion.ByteCount
@@ -212,7 +243,6 @@ type c11Snap struct {
 	nHist    int
 	by       *c11Snap
 	size     congestion.ByteCount
-	bsSize   congestion.ByteCount
 }
 
 func c11CeilDiv(a, b uint64) uint64 { return (a + b - 1) / b }
@@ -250,9 +280,9 @@ func (s *c11Sim) setSize(n congestion.ByteCount) {
 }
 
 func (s *c11Sim) save() c11Snap {
-	sn := c11Snap{slots: s.bs.pktInfoSlots, ackRate: s.bs.ackRate, lastPr: s.bs.lastAckPrintTimestamp, pacer: *s.bs.pacer,
+	sn := c11Snap{bs: *s.bs, pacer: *s.bs.pacer,
 		now: s.now, inflight: s.inflight, pn: s.pn, hasSent: s.hasSent, lastSend: s.lastSend, nGrp: len(s.grpT), nHist: len(s.hist),
-		size: s.size, bsSize: s.bs.maxDatagramSize}
+		size: s.size}
 	if n := len(s.grpB); n > 0 {
 		sn.lastGrpB = s.grpB[n-1]
 	}
@@ -264,13 +294,12 @@ func (s *c11Sim) save() c11Snap {
 }
 
 func (s *c11Sim) restore(sn *c11Snap) {
-	s.bs.pktInfoSlots, s.bs.ackRate, s.bs.lastAckPrintTimestamp = sn.slots, sn.ackRate, sn.lastPr
+	*s.bs = sn.bs // (the pacer pointer in it is the one the sender was built with)
 	*s.bs.pacer = sn.pacer
 	s.now, s.inflight, s.pn, s.hasSent, s.lastSend = sn.now, sn.inflight, sn.pn, sn.hasSent, sn.lastSend
 	if s.size != sn.size {
 		s.setSize(sn.size)
 	}
-	s.bs.maxDatagramSize = sn.bsSize
 	s.grpT, s.grpB, s.hist = s.grpT[:sn.nGrp], s.grpB[:sn.nGrp], s.hist[:sn.nHist]
 	if sn.nGrp > 0 {
 		s.grpB[sn.nGrp-1] = sn.lastGrpB
@@ -400,7 +429,7 @@ func (s *c11Sim) checkAckRate() *c11Viol {
 	if c11Close(got, r4) || c11Close(got, r5) || c11Close(got, r6) {
 		return nil
 	}
-	return &c11Viol{"ackrate-wrong", fmt.Sprintf("after the batch at second %d the factor is %v; reference over the last 4/5/6 s: %v/%v/%v (events sec:acked/lost %s)",
+	return &c11Viol{"ackrate-wrong", fmt.Sprintf("after the batch at second %d the factor is %v; reference over the last 4/5/6 s: %v/%v/%v (events stamped sec:acked/lost %s)",
 		cur, got, r4, r5, r6, s.histString())}
 }
 
@@ -553,8 +582,11 @@ func (s *c11Sim) step1(a c11Action) (eff, disabled bool, v *c11Viol) {
 		} else {
 			s.inflight -= d
 		}
-		s.hist = append(s.hist, c11AckEv{s.now / int64(time.Second), uint64(n), uint64(m)})
-		s.bs.OnCongestionEventEx(prior, s.mt(), s.acked[:n], s.lost[:m])
+		// the time the batch is stamped with: the handling time, or (C11-10) an earlier receive time;
+		// the reference counts a sample in the second it was stamped with
+		stamp := s.now - c11RcvLag[a]
+		s.hist = append(s.hist, c11AckEv{stamp / int64(time.Second), uint64(n), uint64(m)})
+		s.bs.OnCongestionEventEx(prior, monotime.Time(stamp), s.acked[:n], s.lost[:m])
 		if v = s.checkState(); v != nil {
 			return true, false, v
 		}
@@ -753,6 +785,8 @@ func c11Enumerate(sh *evidence.Shard) {
 		{"small-batches", c11AlphaSmall, dSmall, false},
 		// added after the independently seeded change C11-9 (see c11AlphaAckOnly)
 		{"ack-only", c11AlphaAckOnly, dDrain, false},
+		// added after the independently seeded change C11-10 (see c11AlphaLate)
+		{"late-acks", c11AlphaLate, dDrain + 1, false},
 		{"drain", c11AlphaDrain, dDrain, false},
 		{"seq", c11AlphaSeq, dSeq, false},
 	}
@@ -770,6 +804,9 @@ func c11Enumerate(sh *evidence.Shard) {
 		}
 		if pc.name == "ack-only" {
 			alpha["is_retransmittable"] = "OnPacketSent's last argument (quic-go: isAckEliciting) is false for send1-ackonly and for every other datagram (the first, third, ...) of burst16-mixed / drain-mixed / pace16-mixed, true elsewhere; a datagram with the flag false is released under the same condition (CanSend&&HasPacingBudget), does not count into the bytes in flight, and counts in full in the rate bound"
+		}
+		if pc.name == "late-acks" {
+			alpha["event_time"] = "ack(n,m) is stamped with the handling time (quic-go: loss-timer batches get now); ack(n,m)@rcv-2ms / @rcv-1s are handled now and stamped 2ms / 1s earlier (quic-go: ACK-frame batches get the datagram's receive time), so the event times are NOT monotone and step back over a whole-second boundary (2ms: only right after one; 1s: always); the reference counts a sample in the second it was stamped with and takes the last 4/5/6 seconds from the handling time"
 		}
 		p.Alphabet = alpha
 		p.Bounds = map[string]any{"max_sequence_length": pc.depth, "grid_points": len(c11Rates) * len(c11Sizes) * len(c11RTTs) * len(c11Comp),
@@ -834,7 +871,7 @@ func TestVerifC11(t *testing.T) {
 	evidence.Main(t, "C11", evidence.Seq{
 		Run: c11Enumerate,
 		Replay: func(part string, raw json.RawMessage) (bool, bool, string) {
-			if part != "seq" && part != "drain" && part != "probe" && part != "small-batches" && part != "ack-only" {
+			if part != "seq" && part != "drain" && part != "probe" && part != "small-batches" && part != "ack-only" && part != "late-acks" {
 				return false, false, ""
 			}
 			var c c11Case
